@@ -150,3 +150,63 @@ Proof.
   intros Hin Hv H Hf. apply child_has_found; auto.
   eapply ops_child_keeps; eauto. unfold add_children. cbn [child]. apply child_has_app_r. exists c. auto.
 Qed.
+
+(* ---- the children option of AddDesc: every descriptor listed as a manifest ends up listed, wherever it stands in the list ------ *)
+Definition listed (g : string) (i : index) : Prop :=
+  (exists m, In m (top i) /\ d_dig m = g) \/ child_has g (child i).
+
+Definition move_child_step (cd : desc) (i : index) : index :=
+  if negb (manifest_mt (d_mt cd)) then i else
+  match find_index (fun m => String.eqb (d_dig m) (d_dig cd) && (ann_len m =? 0)%nat) (top i) with
+  | Some mi => mkI (swap_remove mi (top i)) (child i ++ [cd])
+  | None =>
+      if existsb (fun m => String.eqb (d_dig m) (d_dig cd)) (top i)
+         || existsb (fun c => String.eqb (d_dig c) (d_dig cd)) (child i)
+      then i else mkI (top i) (child i ++ [cd])
+  end.
+
+Lemma add_move_children_step : forall cs i, add_move_children cs i = fold_left (fun a cd => move_child_step cd a) cs i.
+Proof.
+  induction cs as [|cd r IH]; intros i.
+  - reflexivity.
+  - cbn [add_move_children fold_left]. rewrite IH. unfold move_child_step. reflexivity.
+Qed.
+
+Lemma move_step_listed g cd i : listed g i -> listed g (move_child_step cd i).
+Proof.
+  intros H. unfold move_child_step. destruct (negb (manifest_mt (d_mt cd))); [exact H|].
+  destruct (find_index _ (top i)) as [mi|] eqn:Ef.
+  - destruct (find_index_some _ _ _ Ef) as [y [Hy1 Hy2]]. apply andb_true_iff in Hy2. destruct Hy2 as [Hy2 _]. apply String.eqb_eq in Hy2.
+    destruct H as [[m [Hm1 Hm2]]|Hc].
+    + destruct (string_dec (d_dig cd) g) as [Hg|Hg].
+      * right. cbn [child]. apply child_has_app_r. exists cd. split; [left; reflexivity|exact Hg].
+      * left. exists m. split; auto. cbn [top]. apply (swap_remove_keeps _ _ m y Hm1 Hy1). intros ->. apply Hg. rewrite <- Hy2. exact Hm2.
+    + right. cbn [child]. apply child_has_app_l. exact Hc.
+  - destruct (existsb _ (top i) || existsb _ (child i)); [exact H|].
+    destruct H as [Hm|Hc]; [left; exact Hm|right; cbn [child]; apply child_has_app_l; exact Hc].
+Qed.
+
+Lemma move_step_lists_it cd i : manifest_mt (d_mt cd) = true -> listed (d_dig cd) (move_child_step cd i).
+Proof.
+  intros Hm. unfold move_child_step. rewrite Hm. cbn [negb].
+  destruct (find_index _ (top i)) as [mi|] eqn:Ef.
+  - right. cbn [child]. apply child_has_app_r. exists cd. split; [left; reflexivity|reflexivity].
+  - destruct (existsb (fun m => String.eqb (d_dig m) (d_dig cd)) (top i)) eqn:Et; cbn [orb].
+    + apply existsb_exists in Et. destruct Et as [m [H1 H2]]. apply String.eqb_eq in H2. left. exists m. auto.
+    + destruct (existsb (fun c => String.eqb (d_dig c) (d_dig cd)) (child i)) eqn:Ec.
+      * apply existsb_exists in Ec. destruct Ec as [c [H1 H2]]. apply String.eqb_eq in H2. right. exists c. auto.
+      * right. cbn [child]. apply child_has_app_r. exists cd. split; [left; reflexivity|reflexivity].
+Qed.
+
+Theorem children_option_lists_every_manifest : forall cs i c,
+  In c cs -> manifest_mt (d_mt c) = true -> listed (d_dig c) (add_move_children cs i).
+Proof.
+  intros cs i c Hin Hm. rewrite add_move_children_step. revert i.
+  induction cs as [|cd r IH]; intros i; [destruct Hin|]. cbn [fold_left].
+  destruct Hin as [->|Hin].
+  - pose proof (move_step_lists_it c i Hm) as H0.
+    assert (Hfold : forall l a, listed (d_dig c) a -> listed (d_dig c) (fold_left (fun a0 cd0 => move_child_step cd0 a0) l a)).
+    { induction l as [|x l' IHl]; intros a Ha; simpl; auto. apply IHl. apply move_step_listed. exact Ha. }
+    apply Hfold. exact H0.
+  - apply IH. exact Hin.
+Qed.
